@@ -4,8 +4,10 @@ import os
 import verif as V
 
 PROP = "C02"
-SPEC = "Bng.Spec.C02"
-MON = ["foreign-ack", "double-binding", "range", "renew-changed", "declined-reoffered", "not-reusable"]
+SPEC = ["Bng.Spec.C02", "Bng.Spec.C01V6Construct"]
+MON = ["foreign-ack", "double-binding", "range", "renew-changed", "declined-reoffered", "not-reusable",
+       # what the DHCPv6 pool constructors build (newpool / newapool over all legal geometries)
+       "pool-distinct", "pool-inside"]
 # the drivers are registered in lean/Main.lean (bngdrv); VERIF_C02_DRV=bngdrv-c02 selects the executable that hosts
 # only the two C02 drivers (useful while another property's driver does not build)
 DRV_BIN = os.environ.get("VERIF_C02_DRV", "bngdrv")
